@@ -213,7 +213,7 @@ def cone(cons, seed_syms, extra=None):
 class Ctx:
     """A conjunction: inequalities (e <= 0), disequalities (e != 0) and symbol ranges."""
 
-    __slots__ = ("cons", "neqs", "ranges", "_dead", "_uf")
+    __slots__ = ("cons", "neqs", "ranges", "_dead", "_uf", "hyps")
 
     def __init__(self, ranges):
         self.cons = []
@@ -221,11 +221,13 @@ class Ctx:
         self.ranges = ranges  # shared dict sym -> (lo, hi)
         self._dead = False
         self._uf = None
+        self.hyps = []      # assumed loop-invariant candidates (kept apart from path constraints)
 
     def copy(self):
         c = Ctx(self.ranges)
         c.cons = list(self.cons)
         c.neqs = list(self.neqs)
+        c.hyps = list(self.hyps)
         c._dead = self._dead
         c._uf = None
         return c
@@ -263,8 +265,16 @@ class Ctx:
                     out.append(le(var(s), const(hi)))
         return out
 
+    def add_hyp(self, c):
+        if not c[1]:
+            if c[0] > 0:
+                self._dead = True
+            return
+        if c not in self.hyps:
+            self.hyps.append(c)
+
     def _system(self, seed_syms, extra):
-        base = self.cons + extra
+        base = self.cons + self.hyps + extra
         chosen, ss = cone(base, seed_syms)
         # ranges may connect more; iterate once more including ranges (ranges are unary so no new syms)
         chosen = chosen + self._range_cons(ss)
@@ -329,9 +339,9 @@ class Ctx:
         if self._dead:
             return True
         ss = set()
-        for c in self.cons:
+        for c in self.cons + self.hyps:
             ss.update(s for s, _ in c[1])
-        sys_ = self.cons + self._range_cons(ss)
+        sys_ = self.cons + self.hyps + self._range_cons(ss)
         if _fm_infeasible(sys_):
             self._dead = True
             return True
